@@ -139,5 +139,5 @@ PROP = Property(
     ),
     parts=[Client(), LongSession()],
     assumptions=["as C08"],
-    technique="model-based (stateful) property testing of id correlation with symbolic id classes",
+    technique="model-based (stateful) property testing of id correlation with symbolic id classes and scripted single-delivery lifecycles + long generated sessions checked by an independent decoder",
 )
